@@ -598,6 +598,11 @@ func extCallbacks() []CB {
 		p.Int32(PivotSMBDisconnect).Int32(uint32(r.Intn(2))).Int32(id)
 	}))
 
+	// ---- COMMAND_PIVOT: the answer to a "pivot connect" task that could not connect ---------
+	add(mk("pivot-connect-failed", CmdPivot, true, func(r *simrt.Rand, s *Sent, p *PB) {
+		p.Int32(PivotSMBConnect).Int32(0).Int32(uint32(pick(r, 2, 5, 53, 231)))
+	}))
+
 	// ---- COMMAND_TRANSFER -----------------------------------------------------------------
 	add(mk("transfer-list", CmdTransfer, true, func(r *simrt.Rand, s *Sent, p *PB) {
 		p.Int32(xferList)
